@@ -67,7 +67,8 @@ impl CfCfg {
                     // fingerprint(t) = 1 + finish % xmod  must be fps[j]
                     let j = (k / nb) as usize;
                     let raw = fps[j] - 1;
-                    if junk && xmod < u64::MAX / 4 { raw + xmod * 3 } else { raw }
+                    // junk: another raw hash with the same residue; for l = 64 the only alias is u64::MAX (== 0 mod 2^64-1)
+                    if junk && xmod < u64::MAX / 4 { raw + xmod * 3 } else if junk && raw == 0 { xmod } else { raw }
                 }
                 (Some(1), true) => {
                     let i1 = k % nb;
@@ -75,7 +76,7 @@ impl CfCfg {
                 }
                 (Some(1), false) => {
                     // hash(&fingerprint)
-                    let j = fps.iter().position(|&f| f == k).expect("cuckoo hasher: unknown fingerprint");
+                    let j = fps.iter().position(|&f| f == k).unwrap_or_else(|| panic!("the filter derived fingerprint {:#x}, which no element of this configuration has (fingerprints {:x?}; 0 is the free-slot marker)", k, fps));
                     if junk { alt[j] | (0x5u64 << 40) } else { alt[j] }
                 }
                 other => panic!("cuckoo hasher: unexpected hashing pattern {:?}", other),
